@@ -75,8 +75,12 @@ pub fn filter_simd(array: &dyn Array, predicate: &[bool]) -> Result<ArrayRef> {
 
             let mut values = Vec::new();
             for (i, &valid) in predicate.iter().enumerate() {
-                if valid && !int_array.is_null(i) {
-                    values.push(int_array.value(i));
+                if valid {
+                    values.push(if int_array.is_null(i) {
+                        None
+                    } else {
+                        Some(int_array.value(i))
+                    });
                 }
             }
 
@@ -90,8 +94,12 @@ pub fn filter_simd(array: &dyn Array, predicate: &[bool]) -> Result<ArrayRef> {
 
             let mut values = Vec::new();
             for (i, &valid) in predicate.iter().enumerate() {
-                if valid && !float_array.is_null(i) {
-                    values.push(float_array.value(i));
+                if valid {
+                    values.push(if float_array.is_null(i) {
+                        None
+                    } else {
+                        Some(float_array.value(i))
+                    });
                 }
             }
 
@@ -105,8 +113,12 @@ pub fn filter_simd(array: &dyn Array, predicate: &[bool]) -> Result<ArrayRef> {
 
             let mut values = Vec::new();
             for (i, &valid) in predicate.iter().enumerate() {
-                if valid && !bool_array.is_null(i) {
-                    values.push(bool_array.value(i));
+                if valid {
+                    values.push(if bool_array.is_null(i) {
+                        None
+                    } else {
+                        Some(bool_array.value(i))
+                    });
                 }
             }
 
